@@ -43,7 +43,17 @@ RULE = ("exhaustive: every DAG on <=4 (quick) / <=5 (thorough) labelled nodes x 
         "node, removal of a missing edge / node, add_edges_from with a later cyclic edge (the earlier edge stays): all "
         "must raise, and the answers afterwards are the model's on the resulting state.  L orders: shuffled node / edge "
         "insertion, shuffled observed order, PYTHONHASHSEED 0-3 (quick) / 0-7 (thorough).  "
-        "Not applicable to this property: D pandas frames, F state names, H magnitudes (no data, states or numbers enter any "
+        "N equal-but-not-identical arguments: EVERY name handed to a pgmpy call (start, end, observed, variables, nodes, "
+        "ebunch of edits, DBN tuples) is rebuilt at run time (''.join(list(s)), int(str(i)), tuple rebuilt), never the object "
+        "stored in the graph; the name pools hold multi-character strings and ints above 256 besides the interpreter's "
+        "singletons.  O container types: observed as list / tuple / set / single / None; variables and nodes as list / tuple / "
+        "single; do(nodes) as list / tuple / set / dict view / one-shot generator / numpy array / single; add_nodes_from, "
+        "add_edges_from, remove_edges_from, remove_nodes_from as list / tuple / generator / dict view; latent flags as list / "
+        "tuple / bool (active_trail_nodes, get_ancestral_graph and local_independencies document lists: other iterables are "
+        "outside their documented domain).  P mid-sized inputs: chains and random trees on 9, 12, 16, 17 nodes, sessions up to "
+        "12 nodes, int names above 256.  R combinations: latents x include_latents x weights x object class x construction route "
+        "x observed form are drawn independently in rand / gsess.  "
+        "Not applicable to this property: Q not-exactly-normalised tables (no table value enters any route), D pandas frames, F state names, H magnitudes (no data, states or numbers enter any "
         "route; edge and node weights are exercised and must be ignored), I backends (no tensor operation).  "
         "Domain limits of the objects (documented API, see DESIGN.md section 0): IndependenceAssertion takes non-empty string "
         "variables (listings only with such names; DynamicNode variables are out of its domain, so DBN listings are not "
@@ -105,6 +115,27 @@ def cases(tier, seed):
         out.append({"kind": "rand", "n": n, "nodes": nodes, "edges": edges, "style": style, "lat": lat,
                     "cls": rng.choice(["DAG", "DAG", "BN"]), "route": rng.choice(["add", "add", "ctor", "weights"]),
                     "nameseed": rng.randint(0, 10**9), "qseed": rng.randint(0, 10**9)})
+    # mid-sized and threshold-sized graphs (class P): chains and random trees on 9, 12, 16, 17 nodes (sizes = 1 mod 8,
+    # more than 8 int-named nodes, long trails)
+    for i in range(8 if tier == "quick" else 80):
+        n = rng.choice([9, 12, 16, 17])
+        order = list(range(n))
+        rng.shuffle(order)
+        if i % 2 == 0:
+            edges = [(order[j], order[j + 1]) if rng.random() < 0.7 else (order[j + 1], order[j]) for j in range(n - 1)]
+        else:
+            edges = []
+            for j in range(1, n):
+                p_ = order[rng.randrange(j)]
+                edges.append((p_, order[j]) if rng.random() < 0.6 else (order[j], p_))
+        rng.shuffle(edges)
+        nodes = list(range(n))
+        rng.shuffle(nodes)
+        out.append({"kind": "rand", "n": n, "nodes": nodes, "edges": edges,
+                    "style": rng.choice(["int", "int", "str", "substr", "tuple"] if n <= 12 else ["int", "int", "substr", "tuple"]),
+                    "lat": rng.sample(range(n), 2) if rng.random() < 0.5 else [],
+                    "cls": rng.choice(["DAG", "BN"]), "route": rng.choice(["add", "ctor", "weights"]),
+                    "nameseed": rng.randint(0, 10**9), "qseed": rng.randint(0, 10**9)})
     # edit sessions: ONE DAG object is edited between queries (edge swaps that keep node and edge counts,
     # reversals, additions, removals): answers must follow the current graph, not any earlier one
     nsess = 60 if tier == "quick" else 600
@@ -165,6 +196,44 @@ def shrink(case):
 
 
 # ------------------------------------------------------------------ helpers
+def fresh(x):
+    """an object EQUAL to x but (wherever CPython allows) not IDENTICAL with it: every name handed to a pgmpy call is
+    rebuilt at run time, never the object stored in the graph (`is` instead of `==` must be noticed).  One-character
+    strings, '' and ints in -5..256 are singletons of the interpreter, so the name pools also hold longer strings and
+    ints above 256"""
+    if isinstance(x, bool):
+        return x
+    if isinstance(x, str):
+        return "".join(list(x)) if len(x) > 1 else x
+    if isinstance(x, int):
+        return int(str(x))
+    if isinstance(x, tuple):
+        return tuple(fresh(e) for e in x)
+    return x
+
+
+class FreshNames(list):
+    """the list of node names; indexing gives a fresh equal object each time"""
+
+    def __getitem__(self, i):
+        v = list.__getitem__(self, i)
+        return v if isinstance(i, slice) else fresh(v)
+
+
+def diversify(names, rng):
+    """some names become multi-character strings / ints above 256 (objects that are not interpreter singletons)"""
+    out = []
+    for x in names:
+        if isinstance(x, str) and x and rng.random() < 0.7:
+            x = x + rng.choice(["1", "_v", "x", "10"])
+        elif isinstance(x, int) and not isinstance(x, bool) and x != 0 and rng.random() < 0.6:
+            x = x + 1000
+        out.append(x)
+    if len({repr(x) for x in out}) != len(out):
+        return list(names)
+    return out
+
+
 def names_for(case):
     n = case["n"]
     if case["kind"] == "exh":
@@ -177,10 +246,10 @@ def names_for(case):
         rng.shuffle(rest)
         names = (head + rest)[:n]
         rng.shuffle(names)
-        return names
+        return diversify(names, rng)
     if case["style"] == "substr":
         return substr_names(rng, n)
-    return common.node_names(rng, n, case["style"])
+    return diversify(common.node_names(rng, n, case["style"]), rng)
 
 
 SUBSTR_POOL = ["x1", "x10", "x", "x1x", "1", "10", "up", "down", "weight", "None", "x 1", "X1", "latent",
@@ -221,7 +290,7 @@ def build(case):
     lat = set(case.get("lat", []))
     Cls = graph_class(case.get("cls", "DAG"))
     route = case.get("route", "add")
-    ebunch = [(names[u], names[v]) for u, v in case["edges"]]
+    ebunch = [(fresh(names[u]), fresh(names[v])) for u, v in case["edges"]]
     if route == "ctor":
         latarg = {names[v] for v in lat}
         snap_l, snap_e = set(latarg), list(ebunch)
@@ -251,7 +320,7 @@ def build(case):
         for v in nodes:
             g.add_node(names[v], latent=(v in lat))
         g.add_edges_from(ebunch)
-    return g, names, nodes
+    return g, FreshNames(names), nodes
 
 
 def model_atn(drv, nodes, edges, start, Z):
@@ -751,7 +820,7 @@ class Sess(object):
 
     # ---- abstract state
     def nm(self, i):
-        return self.names[i]
+        return fresh(self.names[i])
 
     def ident(self, x):
         return self.idx[repr(x)]
@@ -1217,15 +1286,38 @@ def _fresh_names(style, names, rng, k):
         elif style == "substr":
             c = rng.choice(["x1", "x", "G"]) + str(rng.randint(0, 30))
         elif style == "int":
-            c = 100 + i if rng.random() < 0.5 else -i
+            c = 1000 + i if rng.random() < 0.5 else -i
         elif style == "tuple":
             c = ("v", 100 + i)
         else:
-            c = rng.choice(["m%d" % i, 200 + i, ("w", i)])
+            c = rng.choice(["m%d" % i, 2000 + i, ("w", i)])
         if repr(c) not in used:
             used.add(repr(c))
             out.append(c)
     return out
+
+
+def contain(rng, items, kinds):
+    """the same members in another documented container type (class O): list, tuple, set, dict view, one-shot
+    generator, numpy array (only for names numpy keeps as scalars of one type)"""
+    items = list(items)
+    kinds = list(kinds)
+    if "array" in kinds and not (items and (all(isinstance(x, str) for x in items) or
+                                            all(isinstance(x, int) and not isinstance(x, bool) for x in items))):
+        kinds.remove("array")
+    k = rng.choice(kinds)
+    if k == "tuple":
+        return tuple(items), k
+    if k == "set":
+        return set(items), k
+    if k == "keys":
+        return dict.fromkeys(items).keys(), k
+    if k == "gen":
+        return (x for x in items), k
+    if k == "array":
+        import numpy as np
+        return np.array(items), k
+    return items, "list"
 
 
 def run_gsess(case, drv):
@@ -1294,7 +1386,9 @@ def run_gsess(case, drv):
             absent = [(u, v) for u in S.nodes for v in S.nodes if u != v and (u, v) not in S.edges][:1]
             arg = [(nm(a), nm(c)) for a, c in es + absent] + [("__nope__", nm(S.nodes[0]))]
             before = list(arg)
-            g.remove_edges_from(arg)
+            carg, ck = contain(rng, arg, ["list", "list", "tuple", "gen"])
+            g.remove_edges_from(carg)
+            tags.append("remove_edges_from as " + ck)
             if arg != before:
                 return bad("mutated-argument:ebunch", S.where(stage=stage))
             for e in es:
@@ -1315,6 +1409,8 @@ def run_gsess(case, drv):
         elif op == "remove_nodes_from":
             vs = rng.sample(S.nodes, 2 if len(S.nodes) > 4 else 1)
             arg = [nm(v) for v in vs] + ["__nope__"]
+            arg, ck = contain(rng, arg, ["list", "list", "tuple", "gen"])
+            tags.append("remove_nodes_from as " + ck)
             try:
                 g.remove_nodes_from(arg)
                 raised = False
@@ -1337,7 +1433,9 @@ def run_gsess(case, drv):
             single = len(vs) == 1 and isinstance(nm(vs[0]), (str, int)) and rng.random() < 0.5
             arg = nm(vs[0]) if single else [nm(v) for v in vs]
             before = S.snap(arg)
-            r = g.do(arg, inplace=(op == "do"))
+            carg, ck = (arg, "single") if single else contain(rng, arg, ["list", "list", "tuple", "set", "keys", "gen", "array"])
+            r = g.do(carg, inplace=(op == "do"))
+            tags.append("do nodes as " + ck)
             if S.snap(arg) != before:
                 return bad("mutated-argument:do-nodes", S.where(stage=stage))
             after = [e for e in S.edges if e[1] not in vs]
@@ -1384,7 +1482,9 @@ def run_gsess(case, drv):
             larg = list(ls) if rng.random() < 0.7 else False
             if larg is False:
                 ls = [False] * len(vs)
-            g.add_nodes_from(arg, latent=larg)
+            carg, ck = contain(rng, arg, ["list", "list", "tuple", "gen", "keys"])
+            g.add_nodes_from(carg, latent=(tuple(larg) if larg is not False and rng.random() < 0.5 else larg))
+            tags.append("add_nodes_from as " + ck)
             for v, l_ in zip(vs, ls):
                 if v not in S.nodes:
                     S.nodes.append(v)
@@ -1423,7 +1523,9 @@ def run_gsess(case, drv):
                 w_ = rng.choice([None, 0, 0.5])
                 g.add_edge(pairs[0][0], pairs[0][1], weight=w_) if w_ is not None else g.add_edge(*pairs[0])
             elif op == "add_edges_from":
-                g.add_edges_from(pairs)
+                carg, ck = contain(rng, pairs, ["list", "list", "tuple", "gen", "keys"])
+                g.add_edges_from(carg)
+                tags.append("add_edges_from as " + ck)
             elif op == "add_weighted_edges_from":
                 g.add_weighted_edges_from([(a, c, rng.choice([0, 1.5])) for a, c in pairs])
             elif op == "update":
@@ -1630,8 +1732,8 @@ class DSess(Sess):
     def nm(self, i):
         if self.flip:
             from pgmpy.models.DynamicBayesianNetwork import DynamicNode
-            return DynamicNode(*self.names[i])
-        return self.names[i]
+            return DynamicNode(*fresh(self.names[i]))
+        return fresh(self.names[i])
 
     @staticmethod
     def _t(x):
@@ -1656,7 +1758,7 @@ class DSess(Sess):
 
     def zobj(self, Z, form):
         if form == "single":
-            return self.names[Z[0]]      # a single observed node is given as a (name, slice) tuple
+            return fresh(self.names[Z[0]])      # a single observed node is given as a (name, slice) tuple
         return Sess.zobj(self, Z, form)
 
     def forms_for(self, Z):
@@ -1742,9 +1844,9 @@ def run_dbn(case, drv):
     def ebunch_of(kind, a, b_):
         if kind == "intra":
             t = rng.choice([0, 1])
-            return ((varnames[a], t), (varnames[b_], t))
+            return ((fresh(varnames[a]), t), (fresh(varnames[b_]), t))
         t = rng.choice([0, 0, 1])       # (t, t+1) is normalised to (0, 1)
-        return ((varnames[a], t), (varnames[b_], t + 1))
+        return ((fresh(varnames[a]), t), (fresh(varnames[b_]), t + 1))
 
     plan = [("intra", a, b_) for a, b_ in intra] + [("inter", a, b_) for a, b_ in inter]
     rng.shuffle(plan)
@@ -1873,7 +1975,7 @@ def _nb_names(rng, style, k):
     if style == "substr":
         return substr_names(rng, k)
     if style == "int":
-        return rng.sample(range(1, k + 6), k)
+        return [x + (300 if x % 2 else 0) for x in rng.sample(range(1, k + 6), k)]
     if style == "tuple":
         return [("v", i) for i in rng.sample(range(k + 4), k)]
     pool = ["x", 3, ("t", 1), "y1", 7, "zz", ("u", 2), "w", 11, "q", 5, "r", 13, "y10"]
